@@ -314,14 +314,72 @@ func RunC12(c *core.Ctx) {
 			}
 		}
 	}
-	c.Set("evaluations", evals+charSubs)
+	// splices: the attacker holds TWO keys issued by the real keygen (CreateKey) for the same contract and replaces a byte
+	// range of one by the same range of the other (all 300 ranges, which include every combination of whole 8-byte
+	// blocks that is contiguous, plus blocks 0+2).  The result may grant what either key granted, nothing more.
+	var splices int64
+	type pairShape struct{ ta, pa, tb, pb string }
+	pairs := []pairShape{{"a/", "r", "b/", "rw"}, {"a/b/", "r", "a/", "w"}, {"a/", "rl", "b/b/", "rwslp"}, {"a/#/", "r", "b/", "w"}}
+	for v := 1; v <= 3; v++ {
+		b := brokers[v]
+		for _, ps := range pairs {
+			ka, err1 := b.Key(ps.ta, ps.pa, time.Unix(0, 0))
+			kb, err2 := b.Key(ps.tb, ps.pb, time.Unix(0, 0))
+			if err1 != nil || err2 != nil {
+				core.Fatalf("keygen: %v %v", err1, err2)
+			}
+			ra, _ := base64.RawURLEncoding.DecodeString(ka)
+			rb, _ := base64.RawURLEncoding.DecodeString(kb)
+			pa, _ := b.Cipher.DecryptKey([]byte(ka))
+			pb, _ := b.Cipher.DecryptKey([]byte(kb))
+			base := grants(b, ka, probes)
+			for g := range grants(b, kb, probes) {
+				base[g] = true
+			}
+			type rng2 struct{ lo, hi, lo2, hi2 int }
+			var ranges []rng2
+			for lo := 0; lo < 24; lo++ {
+				for hi := lo + 1; hi <= 24; hi++ {
+					ranges = append(ranges, rng2{lo, hi, 0, 0})
+				}
+			}
+			ranges = append(ranges, rng2{0, 8, 16, 24})
+			for _, r := range ranges {
+				mod, plain := append([]byte{}, ra...), append(security.Key{}, pa...)
+				copy(mod[r.lo:r.hi], rb[r.lo:r.hi])
+				copy(mod[r.lo2:r.hi2], rb[r.lo2:r.hi2])
+				copy(plain[r.lo:r.hi], pb[r.lo:r.hi])
+				copy(plain[r.lo2:r.hi2], pb[r.lo2:r.hi2])
+				ms := base64.RawURLEncoding.EncodeToString(mod)
+				if ms == ka || ms == kb {
+					continue
+				}
+				var gained []string
+				for g := range grants(b, ms, probes) {
+					if !base[g] {
+						gained = append(gained, g)
+					}
+				}
+				sort.Strings(gained)
+				// under the stream ciphers (v2: key-independent key stream, v3: salted) a splice is an xor of the range with a
+				// mask the attacker does not even need to know: whatever it gains is the listed finding stream_malleable;
+				// under v1 (block cipher chained to the per-key salt) every spliced block is noise: nothing may be gained
+				var pred map[string]bool
+				_ = plain
+				splices++
+				verdict(v, fmt.Sprintf("splice of bytes [%d,%d)+[%d,%d) from a second issued key (%s %s)", r.lo, r.hi, r.lo2, r.hi2, ps.tb, ps.pb), ka, ms, gained, pred, map[string]any{"a": ps.ta + " " + ps.pa, "b": ps.tb + " " + ps.pb, "other_key": kb})
+			}
+		}
+	}
+	c.Set("two_key_splices", splices)
+	c.Set("evaluations", evals+charSubs+splices)
 	c.Set("model_tamper_cases", int64(len(cases)))
 	c.Set("byte_level_mutations", charSubs)
 	c.Set("distinct_nontrivial", nontrivial)
 	c.Set("gains_explained_by_stream_malleable", streamGains)
 	c.Set("gains_explained_by_keyban_finding", banGains)
-	c.Set("rule", "TLC enumerates issued key shapes (7 masks x 6 targets x 3 expiries) x field-level tamper operations (toggle each permission, the exact bit, each path bit; re-target the stored hash; rewrite the expiry; touch salt/master/contract/signature; swap 8-byte blocks) and the grants gained under an authenticated, a block and a stream cipher; each is concretised as a byte operation on the real 32-character key under license v1, v2, v3 and decided by the real Service.Authorize over 30 probes; plus seeded single-character substitutions and multi-byte xor masks; non-trivial = cases where the model predicts a gain under a stream cipher")
-	c.Assume = append(c.Assume, "bounded Dolev-Yao style attacker (field-level operations, character substitutions, xor masks, block swaps of ONE issued key); no cryptanalysis",
+	c.Set("rule", "TLC enumerates issued key shapes (7 masks x 6 targets x 3 expiries) x field-level tamper operations (toggle each permission, the exact bit, each path bit; re-target the stored hash; rewrite the expiry; touch salt/master/contract/signature; swap 8-byte blocks) and the grants gained under an authenticated, a block and a stream cipher; each is concretised as a byte operation on the real 32-character key under license v1, v2, v3 and decided by the real Service.Authorize over 30 probes; plus seeded single-character substitutions and multi-byte xor masks, and every byte-range splice between two keys issued by CreateKey; non-trivial = cases where the model predicts a gain under a stream cipher")
+	c.Assume = append(c.Assume, "bounded Dolev-Yao style attacker (field-level operations, character substitutions, xor masks, block swaps of one issued key, byte-range splices between two keys issued by the real keygen); no cryptanalysis",
 		"under XTEA a garbled block carries the right 32-bit signature / target hash with probability 2^-32 per attempt: excluded")
 	c.Finish()
 }
